@@ -73,11 +73,14 @@ def net2():
 
 def dim_case(rep, c):
     f, dim = c["field"], c["dim"]
-    q = UnitValue(1.0, Units(UnitsSystem(), UnitsDimensions(*dim)))
+    # zero is a legitimate magnitude for these fields: a zero of the wrong dimension is as wrong as any other value
+    zero_ok = f in ("density", "D", "k0", "k1", "k2", "k3", "state")
+    val = 0.0 if zero_ok and (sum(dim) + len(f)) % 2 == 0 else 1.0
+    q = UnitValue(val, Units(UnitsSystem(), UnitsDimensions(*dim)))
     arr = UnitArray([0.0, 1.0], Units(UnitsSystem(), UnitsDimensions(*dim)))
     system = lambda: RDSystem(network=net2(), space=RDGridSpace(w=2))
     other = UnitsSystem(space="nm", time="ms", quantity="mol")
-    q2 = UnitValue(1.0, Units(other, UnitsDimensions(*dim)))        # the same wrong (or right) dimension, in another unit system
+    q2 = UnitValue(val, Units(other, UnitsDimensions(*dim)))        # the same wrong (or right) dimension, in another unit system
     right_t = UnitValue(0.5, "s")
     right_x = UnitValue(2.0, "molecule")
     table = {
@@ -104,7 +107,7 @@ def dim_case(rep, c):
                   lambda: RDSystem(network=net2(), space=RDGridSpace(w=1), state=[q2, right_x]),
                   lambda: UnitArray([q, right_x], "molecule")],
     }
-    return table[f], {"field": f, "dimension": dim}
+    return table[f], {"field": f, "dimension": dim, "value": val}
 
 
 def position_case(rep, c):
@@ -205,6 +208,12 @@ def enum_cases():
         out.append(("space-type", v, ok, lambda v=v: rdspace_from_dict({"type": v})))
     for v, ok in [(["a"], True), (["a", "b"], True), ([""], True), ([], False), (["default"], False), (["a", "default"], False), ("a", False), ([1], False)]:
         out.append(("environments", v, ok, lambda v=v: RDNetwork(species=[Species("A")], reactions=[], environments=v)))
+        out.append(("environments(setter)", v, ok, lambda v=v: setter(RDNetwork(species=[Species("A")], reactions=[]), "environments", v)))
+        out.append(("environments(dict)", v, ok, lambda v=v: rdnetwork_from_dict({"species": [{"label": "A"}], "reactions": [], "environments": v})))
+        out.append(("environments(system dict)", v, ok, lambda v=v: rdsystem_from_dict(
+            {"network": {"species": [{"label": "A"}], "reactions": [], "environments": v}, "space": {"w": 1}})))
+        out.append(("environments(script dict)", v, ok, lambda v=v: rdscript_from_dict(
+            {"system": {"network": {"species": [{"label": "A"}], "reactions": [], "environments": v}}, "t_sample": [0, 1]})))
     for v, ok in [("m", True), ("µm", True), ("um", False), ("meter", False), ("", False), ("L", False)]:
         out.append(("space-unit-symbol", v, ok, lambda v=v: UnitsSystem(space=v)))
     for v, ok in [("molecule", True), ("mol", True), ("M", False), ("molecules", False)]:
